@@ -1485,15 +1485,12 @@ where
 
         // the adjusted current node is not the topmost element in the stack of open elements
         let adjusted_current_node_not_topmost = match self.open_elems.borrow().first() {
-            // The stack grows downwards; the topmost node on the stack is the first one added to the stack
-            // The current node is the bottommost node in this stack of open elements.
-            //
-            // (1) The adjusted current node is the context element if the parser was created as part of the HTML fragment parsing algorithm
-            // and the stack of open elements has only one element in it (fragment case);
-            // (2) otherwise, the adjusted current node is the current node (the bottomost node)
-            //
-            // => adjusted current node != topmost element in the stack when the stack size > 1
-            Some(_) => self.open_elems.borrow().len() > 1,
+            // The topmost node on the stack is the first one added to the stack. The adjusted current node is
+            // the context element if the parser was created as part of the HTML fragment parsing algorithm and
+            // the stack of open elements has only one element in it (fragment case); otherwise it is the
+            // current node. So the two differ when the stack holds more than one element, and also in the
+            // fragment case with a single (root) element, where the context element becomes the shadow host.
+            Some(topmost) => !self.sink.same_node(&self.adjusted_current_node(), topmost),
             None => true,
         };
 
